@@ -259,6 +259,11 @@ class C10(Prop):
                                                         w.name_of(seen[kk]), w.name_of(c), w.name_of(o), v))
                                 seen[kk] = c
                     for v in (vals if lookups else ()):
+                        if "*" in v or "?" in v:
+                            # such a value is a glob for get_*, not an exact name: the property speaks of
+                            # lookups by exact name only (DESIGN 14)
+                            w.count("probe.lookup_skipped_glob_value")
+                            continue
                         want = scan_lookup(o, acc, key, v)
                         got = list(getter(o, v, key=key))
                         if len(got) != len(set(id(x) for x in got)):
